@@ -831,8 +831,8 @@ func c29CheckGoRoundTrip(r *verifkit.Run, name string, want *lfs.Envelope, encod
 const c29RuleRoundTrip = "[generated] PRNG envelope field assignments (unicode of every UTF-8 width, JSON-hostile characters, control characters, the marker text inside values, bucket/key of 50-300 bytes, each optional field present/absent, all/none, header maps with __proto__/empty keys, sizes up to 2^53-1) -> lfs.EncodeEnvelope (the function every proxy producer calls) -> (a) Go: DecodeEnvelope returns the assignment, IsLfsEnvelope is true, re-encoding the decoded fields reproduces the bytes; (b) the same bytes are given to python3 running the tree's lfs_sdk/envelope.py and to node running the type-erased envelope.ts: each must recognise the value and decode it to the same fields as Go (absent/null/empty optional fields are identified); non-trivial = an assignment with a non-ASCII or JSON-escaped character or a key >= 50 bytes"
 
 func c29PhaseRoundTrip(r *verifkit.Run) []c29Item {
-	n := r.N(1500, 60000)
-	nx := r.N(1500, 30000) // how many of them also go to python/node
+	n := r.N(1500, 50000)
+	nx := r.N(1500, 25000) // how many of them also go to python/node
 	var items []c29Item
 	for ci := 0; ci < n; ci++ {
 		rng := r.Rand(ci)
@@ -1401,7 +1401,7 @@ func c29PhaseAgreement(r *verifkit.Run) []c29Item {
 	items := c29Fixed()
 	items = append(items, c29Systematic(r.Thorough())...)
 	r.Count("fixed_inputs", int64(len(items)))
-	n := r.N(2500, 80000)
+	n := r.N(2500, 60000)
 	for ci := 0; ci < n; ci++ {
 		rng := r.Rand(2000000 + ci)
 		var b []byte
